@@ -36,7 +36,9 @@ THEOREMS = [
     "VK.Gen.C14_runSimplex",
     "VK.Gen.C14_run_simplex",
 ]
-RULE = ("cases = random parameter sets for all 16 generator paths (ImpartialCulture, ImpartialAnonymousCulture, BallotSimplex "
+RULE = ("(for a third of the bloc-model cases a sibling generator of the same class, same bloc names, other candidate names is "
+        "built after the one under test and kept alive while that one samples) "
+        "cases = random parameter sets for all 16 generator paths (ImpartialCulture, ImpartialAnonymousCulture, BallotSimplex "
         "from point, name/short-name PlackettLuce, name BradleyTerry exact + MCMC, slate BradleyTerry exact + MCMC, "
         "AlternatingCrossover, CambridgeSampler (synthetic and historical type table), name_Cumulative, slate_PlackettLuce, "
         "OneDimSpatial, Spatial, ClusteredSpatial) x 1-3 blocs x slate sizes 1-3 x cohesion / proportion vectors with 0 and 1 "
